@@ -76,7 +76,34 @@ def _block(stmts, live, out):
     return live
 
 
+def _split_conditional(st):
+    """`x = a if c else b`, `return a if c else b`, `x += ...`, `y.append(a if c else b)`  ->  the equivalent if statement (so a
+    conditional expression and a conditional statement give the same paths); None if st has no conditional value"""
+    def rebuild(make):
+        return None
+    if isinstance(st, ast.Return) and isinstance(st.value, ast.IfExp):
+        e = st.value
+        return ast.If(test=e.test, body=[ast.Return(value=e.body)], orelse=[ast.Return(value=e.orelse)])
+    if isinstance(st, ast.Assign) and isinstance(st.value, ast.IfExp):
+        e = st.value
+        return ast.If(test=e.test, body=[ast.Assign(targets=st.targets, value=e.body)], orelse=[ast.Assign(targets=st.targets, value=e.orelse)])
+    if isinstance(st, ast.AugAssign) and isinstance(st.value, ast.IfExp):
+        e = st.value
+        return ast.If(test=e.test, body=[ast.AugAssign(target=st.target, op=st.op, value=e.body)], orelse=[ast.AugAssign(target=st.target, op=st.op, value=e.orelse)])
+    if isinstance(st, ast.Expr) and isinstance(st.value, ast.Call) and len(st.value.args) == 1 and isinstance(st.value.args[0], ast.IfExp) and not st.value.keywords and isinstance(st.value.func, ast.Attribute) and not any(isinstance(x, ast.Call) for x in ast.walk(st.value.func)):
+        e = st.value.args[0]
+        mk = lambda a: ast.Expr(value=ast.Call(func=st.value.func, args=[a], keywords=[]))  # noqa: E731
+        return ast.If(test=e.test, body=[mk(e.body)], orelse=[mk(e.orelse)])
+    return None
+
+
 def _stmt(st, live, out):
+    sp = _split_conditional(st)
+    if sp is not None:
+        for x in ast.walk(sp):
+            if not hasattr(x, 'lineno'):
+                x.lineno, x.col_offset, x.end_lineno, x.end_col_offset = getattr(st, 'lineno', 0), getattr(st, 'col_offset', 0), getattr(st, 'end_lineno', 0), getattr(st, 'end_col_offset', 0)
+        return _stmt(sp, live, out)
     if isinstance(st, ast.Return):
         for p in live:
             p.kind, p.value, p.node = 'return', subst(st.value, p.env) if st.value is not None else ast.Constant(value=None), st
